@@ -126,6 +126,14 @@ CLAIMS = {
         technique="TLC step machine + TLC trace validation of recorded sampler runs (B2) + exact tables (B3) + fixed-alpha statistical tests",
         engine="tlc-replay",
     ),
+    "C09": dict(
+        category="exploration",
+        text="spec/ErrProp.tla is a step machine whose state is one value+-error expression tree and whose actions are the operators of NumberError (25 named actions incl. cal_err, apply, exp, log, pow with uncertain base or exponent); Rule transcribes err_num.py carrying the error as sign*sqrt(q) in exact rationals, Ref is forward-mode differentiation in exact rationals. TLC explores every tree up to depth 2 (thorough: plus a depth-3 family; 44 099 / 309 618 states) and proves Magnitude, ValueAgrees, NonNegative, TransLaw and the bound-congruence lemmas. Every emitted tree is evaluated with the real NumberError / cal_err against sqrt(Ref); error_trans / params_trans are fed TLC's exact gradients; trans_error_matrix on all 64 bound configurations; get_params_error (all methods, with and without bounds), cal_hesse_error and VarsManager.minimize(_error) against a Richardson finite-difference Hessian of the NLL; both fit-fraction error paths against the finite-difference gradient of the fraction itself for every resonance and interference term.",
+        design_ref="DESIGN.md 5/C09; notes/C09.md",
+        note="Trusted: TLC; an independent Fraction oracle in the harness matches TLC's values exactly on every row; finite differences with Richardson extrapolation on small fitted three-body models (positive-definite points only); reflected operators (2 + N) are not defined by the class and are counted as an assumption.",
+        technique="TLA+ step machine over value+-error expression trees model-checked by TLC in exact rationals; every tree replayed on NumberError / ParamsTrans (B3); Hessian and fit-fraction errors against finite differences",
+        engine="tlc-table",
+    ),
 }
 
 NOT_YET = "check not built yet in this round (planned in DESIGN.md 5); not claimed until its specification is bound to the code"
